@@ -73,8 +73,9 @@ class Sink(threading.Thread):
 class Collector:
     """one incarnation after the other of the real binary in one working directory"""
 
-    def __init__(self, ctx, binary, workdir, sink_port, workers=4, extra_cfg=""):
+    def __init__(self, ctx, binary, workdir, sink_port, workers=4, extra_cfg="", stats_format="restful"):
         self.ctx, self.binary, self.dir = ctx, binary, workdir
+        self.stats_format = stats_format
         self.ports = {p: free_port(socket.SOCK_DGRAM) for p in ("ipfix", "netflow9", "netflow5", "sflow")}
         self.stats_port = free_port()
         self.proc = None
@@ -85,7 +86,7 @@ pid-file: %(dir)s/vflow.pid
 log-file: ""
 dynamic-workers: false
 stats-enabled: true
-stats-format: restful
+stats-format: %(fmt)s
 stats-http-addr: 127.0.0.1
 stats-http-port: "%(stats)d"
 ipfix-rpc-enabled: false
@@ -102,7 +103,7 @@ sflow-workers: %(w)d
 producer-enabled: true
 mq-name: rawSocket
 mq-config-file: mq.conf
-%(extra)s""" % dict(dir=workdir, stats=self.stats_port, w=workers, extra=extra_cfg, **self.ports)
+%(extra)s""" % dict(dir=workdir, stats=self.stats_port, w=workers, extra=extra_cfg, fmt=stats_format, **self.ports)
         with open(os.path.join(workdir, "vflow.conf"), "w") as fh:
             fh.write(cfg)
         with open(os.path.join(workdir, "mq.conf"), "w") as fh:
@@ -131,8 +132,25 @@ mq-config-file: mq.conf
             time.sleep(0.05)
         raise vlib.Infra("vflow did not become ready: " + self.err_tail())
 
+    PROM = {"udp_packets": "UDPCount", "decoded_packets": "DecodedCount", "mq_error": "MQErrorCount", "message_queue": "MessageQueue",
+            "udp_queue": "UDPQueue", "workers": "Workers", "udp_mirror_queue": "UDPMirrorQueue"}
+    PROMP = {"ipfix": "IPFIX", "sflow": "SFlow", "netflowv5": "NetflowV5", "netflowv9": "NetflowV9"}
+
     def stats(self):
+        """the statistics as the configured format exposes them, in one shape: {IPFIX: {UDPCount: ...}, ...}"""
         try:
+            if self.stats_format == "prometheus":
+                with urllib.request.urlopen("http://127.0.0.1:%d/metrics" % self.stats_port, timeout=2) as r:
+                    text = r.read().decode()
+                out = {}
+                for line in text.split("\n"):
+                    if not line.startswith("vflow_"):
+                        continue
+                    name, val = line.rsplit(" ", 1)
+                    proto, metric = name[len("vflow_"):].split("_", 1)
+                    if proto in self.PROMP and metric in self.PROM:
+                        out.setdefault(self.PROMP[proto], {})[self.PROM[metric]] = int(float(val))
+                return out or None
             with urllib.request.urlopen("http://127.0.0.1:%d/flow" % self.stats_port, timeout=2) as r:
                 return json.loads(r.read())
         except Exception:
